@@ -38,6 +38,8 @@ def shards(tier, seed):
         for D in BOUNDS[tier]["D"]:
             for R in BOUNDS[tier]["R"]:
                 out.append(dict(id="C19/%s/D%d/R%d" % (kind, D, R), kind=kind, D=D, R=R, cost=D * R, facts=dict(kind=kind, D=D, R=R)))
+    if tier == "quick":
+        out.append(dict(id="C19/GaussianPDF/D4/R4.big", kind="GaussianPDF", D=4, R=4, big=True, cost=20, facts=dict(kind="GaussianPDF", D=4, R=4)))
     return out
 
 
@@ -75,8 +77,8 @@ def run_shard(shard, ctx):
         # near-singular / dense mixed-sign members are part of the catalogue: make sure one is used
         conds = [np.linalg.cond(A) for A in al.spd_catalogue(3)]
         vis = sorted(set(vis + [int(np.argmax(conds))]))
-    for n in BOUNDS[tier]["n"]:
-        for vi in vis:
+    for n in (BOUNDS[tier]["n"] if not shard.get("big") else [4]):
+        for vi in (vis if not shard.get("big") else [0, 100]):
             tag = ("c19", kind, D, R)
             Sig = objs.spd_batch(D, R, vi, seed, tag, diag=diag)
             mu = objs.vec_batch(D, R, vi, seed, tag)
